@@ -96,3 +96,39 @@ pub fn tag_features(char_n: u8, type_n: u8, chars: &[char], types: &[u8], ts: us
     }
     out
 }
+
+
+/// Features of every boundary of a sentence in one pass (same definition as `boundary_features`,
+/// but dictionary occurrences are located once per sentence, so very long sentences stay cheap).
+pub fn sentence_features(cfg: &TrainConfig, chars: &[char], types: &[u8]) -> Vec<Vec<RFeature>> {
+    let n = chars.len();
+    let nb = n.saturating_sub(1);
+    let mut out: Vec<Vec<RFeature>> = vec![vec![]; nb];
+    let no_dict = TrainConfig { dict: vec![], ..cfg.clone() };
+    for (b, o) in out.iter_mut().enumerate() {
+        *o = boundary_features(&no_dict, chars, types, b);
+    }
+    for w in &cfg.dict {
+        let g: Vec<char> = w.chars().collect();
+        if g.is_empty() || g.len() > n {
+            continue;
+        }
+        let length = g.len().min(usize::from(cfg.bucket));
+        for s in 0..=n - g.len() {
+            if chars[s] != g[0] || chars[s..s + g.len()] != g[..] {
+                continue;
+            }
+            let e = s + g.len();
+            if s > 0 {
+                out[s - 1].push(RFeature::Dict { length, side: 0 });
+            }
+            for o in out.iter_mut().take(e - 1).skip(s) {
+                o.push(RFeature::Dict { length, side: 1 });
+            }
+            if e < n {
+                out[e - 1].push(RFeature::Dict { length, side: 2 });
+            }
+        }
+    }
+    out
+}
